@@ -77,6 +77,19 @@ class XCIdentity:
         return out
 
     def __call__(self, ob, tier, seed):
+        r = self.decide(ob, tier, seed)
+        if r.verdict == UNDECIDED:
+            # no exact verdict on this tree: the identity is still evaluated natively on a fixed scan (corners included); only a failing
+            # point changes the verdict
+            from contracts.xc_replay import native_scan
+
+            bad, info = native_scan(self.f, self.Nspin, self.kind, self.s, T=self.T)
+            if bad:
+                return Result(REFUTED, backend="native-contract-evaluation", witness=dict(f=self.f, Nspin=self.Nspin, kind=self.kind, s=self.s, scan=True), replayed=True,
+                              replay_info=info, detail=f"{ob.name}: the derivative identity fails natively at {info.get('worst') or info} (no exact verdict: {r.detail[:120]})")
+        return r
+
+    def decide(self, ob, tier, seed):
         rng = random.Random(f"{seed}/{ob.name}")
         try:
             S, exc, vxc, vsigma, extra = self.trace()
@@ -112,6 +125,10 @@ class XCIdentity:
         return Result(DISCHARGED, backend="algebra-normaliser", stats=stats, side_conditions=side)
 
     def replay(self, wit):
+        if wit.get("scan"):
+            from contracts.xc_replay import native_scan
+
+            return native_scan(wit["f"], wit["Nspin"], wit["kind"], wit["s"], T=self.T)
         if wit.get("kind") == "vsigma":
             return replay_vsigma(wit)
         return replay_vxc(wit)
